@@ -79,6 +79,9 @@ type RestAgent struct {
 	// map UUIDs to EIDs and received bundles
 	clients sync.Map // uuid[string] -> bpv7.EndpointID
 	mailbox sync.Map // uuid[string] -> []bpv7.Bundle
+
+	// mailboxMutex protects the read-modify-write operations on a client's mailbox.
+	mailboxMutex sync.Mutex
 }
 
 // NewRestAgent creates a new RESTful Application Agent.
@@ -128,6 +131,9 @@ func (ra *RestAgent) receiveBundleMessage(msg BundleMessage) {
 		}
 		return true // multiple clients might be registered for some endpoint
 	})
+
+	ra.mailboxMutex.Lock()
+	defer ra.mailboxMutex.Unlock()
 
 	for _, uuid := range uuids {
 		var bundles []bpv7.Bundle
@@ -197,8 +203,10 @@ func (ra *RestAgent) handleUnregister(w http.ResponseWriter, r *http.Request) {
 		log.WithError(jsonErr).Warn("Failed to parse REST unregistration request")
 	} else {
 		log.WithField("uuid", unregisterRequest.UUID).Info("Unregister REST client")
+		ra.mailboxMutex.Lock()
 		ra.clients.Delete(unregisterRequest.UUID)
 		ra.mailbox.Delete(unregisterRequest.UUID)
+		ra.mailboxMutex.Unlock()
 	}
 
 	w.Header().Set("Content-Type", "application/json")
@@ -214,6 +222,7 @@ func (ra *RestAgent) handleFetch(w http.ResponseWriter, r *http.Request) {
 		fetchResponse RestFetchResponse
 	)
 
+	ra.mailboxMutex.Lock()
 	if jsonErr := json.NewDecoder(r.Body).Decode(&fetchRequest); jsonErr != nil {
 		log.WithError(jsonErr).Warn("Failed to parse REST fetch request")
 		fetchResponse.Error = jsonErr.Error()
@@ -227,6 +236,7 @@ func (ra *RestAgent) handleFetch(w http.ResponseWriter, r *http.Request) {
 		log.WithField("uuid", fetchRequest.UUID).Debug("REST client has no new bundles to fetch")
 		fetchResponse.Bundles = make([]bpv7.Bundle, 0)
 	}
+	ra.mailboxMutex.Unlock()
 
 	w.Header().Set("Content-Type", "application/json")
 	if err := json.NewEncoder(w).Encode(fetchResponse); err != nil {
